@@ -33,8 +33,11 @@ theorem closedBy_key (d c : Delim) (ch : Char) (hc : c.type.head? = some ch) (hc
     have e2 : c.runLength % 3 % 3 = c.runLength % 3 := by omega
     rw [e1, e2]
     by_cases hab : a = ch
-    · subst hab; simp
-      split <;> rfl
+    · subst hab
+      simp only [bne_self_eq_false, Bool.false_eq_true, if_false, beq_self_eq_true, Bool.true_and]
+      by_cases hx : ((d.opens && d.closes) || c.opens) = true
+      · rw [if_pos hx, if_pos hx]
+      · rw [if_neg hx, if_neg hx]
     · have : (a != ch) = true := by simpa using hab
       rw [if_pos this]
       have : (some a == some ch) = false := by simpa using hab
@@ -187,5 +190,428 @@ theorem matchingOpener_some_lb (curr : Nat) (ds : List Delim) (bottom : Option N
       rw [hc] at h
       simp only at h
       exact go_some_lb ds closer _ curr (curr - 1) o h
+
+/-! ### the invariant of `bottoms` -/
+
+/-- Invariant of `bottoms` when the closer at position `curr` is about to be processed: every
+    recorded bound `b` lies below `curr` and not below the stack bottom, and no delimiter between
+    the stack bottom and `b` is an opener that a closer with the entry's key accepts.  (`None` is
+    only recorded when the stack bottom is `None`.) -/
+def BInv (sb : Option Nat) (ds : List Delim) (bs : List (BKey × Option Nat)) (curr : Nat) : Prop :=
+  ∀ e ∈ bs, (e.2 = none → sb = none) ∧
+    ∀ b, e.2 = some b → b < curr ∧ (∀ x, sb = some x → x ≤ b) ∧
+      ∀ j d, loOf sb ≤ j → j ≤ b → ds[j]? = some d → d.emph = true → d.opens = true → keyAccept d e.1 = false
+
+theorem bottomsGet_cases (bs : List (BKey × Option Nat)) (k : BKey) (sb : Option Nat) :
+    bottomsGet bs k sb = sb ∨ ∃ e ∈ bs, e.1 = k ∧ bottomsGet bs k sb = e.2 := by
+  unfold bottomsGet
+  cases h : bs.find? (fun e => e.1 == k) with
+  | none => left; rfl
+  | some e =>
+    right
+    refine ⟨e, List.mem_of_find?_eq_some h, ?_, rfl⟩
+    have := List.find?_some h
+    simpa using this
+
+theorem bottomsSet_mem (bs : List (BKey × Option Nat)) (k : BKey) (v : Option Nat) (e : BKey × Option Nat)
+    (h : e ∈ bottomsSet bs k v) : e = (k, v) ∨ e ∈ bs := by
+  unfold bottomsSet at h
+  split at h
+  · obtain ⟨e0, he0, rfl⟩ := List.mem_map.1 h
+    split
+    · left; rfl
+    · right; exact he0
+  · rcases List.mem_append.1 h with h | h
+    · right; exact h
+    · left; simpa using h
+
+theorem BInv.lo_le {sb : Option Nat} {ds : List Delim} {bs : List (BKey × Option Nat)} {curr : Nat}
+    (hB : BInv sb ds bs curr) (k : BKey) : loOf sb ≤ loOf (bottomsGet bs k sb) := by
+  rcases bottomsGet_cases bs k sb with h | ⟨e, he, _, h⟩
+  · rw [h]; exact Nat.le_refl _
+  · rw [h]
+    cases hv : e.2 with
+    | none => rw [(hB e he).1 hv]; exact Nat.le_refl _
+    | some b =>
+      cases sb with
+      | none => simp [loOf]
+      | some x =>
+        have := ((hB e he).2 b hv).2.1 x rfl
+        simp only [loOf]; omega
+
+/-- **The recorded bottoms are sound**: searching down to the recorded bound finds the same opener
+    as searching down to the stack bottom. -/
+theorem bottoms_sound (sb : Option Nat) (ds : List Delim) (bs : List (BKey × Option Nat)) (curr : Nat)
+    (closer : Delim) (ch : Char) (hB : BInv sb ds bs curr)
+    (hall : ∀ d ∈ ds, d.emph = true → d.type ≠ [])
+    (hc : ds[curr]? = some closer) (hh : closer.type.head? = some ch) (hcl : closer.closes = true) :
+    matchingOpener curr ds (bottomsGet bs (ch, closer.opens, closer.runLength % 3) sb) =
+      matchingOpener curr ds sb := by
+  apply matchingOpener_lo curr ds _ sb (hB.lo_le _)
+  intro closer' hc' j h1 h2 d hd
+  rw [hc] at hc'; cases hc'
+  rcases bottomsGet_cases bs (ch, closer.opens, closer.runLength % 3) sb with h | ⟨e, he, hk, h⟩
+  · rw [h] at h2; omega
+  · rw [h] at h2
+    cases hv : e.2 with
+    | none => rw [hv] at h2; simp [loOf] at h2
+    | some b =>
+      rw [hv] at h2
+      simp only [loOf] at h2
+      by_cases heo : d.emph = true ∧ d.opens = true
+      · right
+        rw [closedBy_key d closer ch hh hcl (hall d (List.mem_of_getElem? hd) heo.1), ← hk]
+        rw [((hB e he).2 b hv).2.2 j d h1 (by omega) hd heo.1 heo.2]
+      · left; exact heo
+
+/-- one iteration keeps the invariant of `bottoms` (and the closer position stays above the stack
+    bottom) -/
+theorem BInv.step {sb : Option Nat} {ds ds' : List Delim} {bs bs' : List (BKey × Option Nat)} {curr from' : Nat}
+    {closer : Delim} (hB : BInv sb ds bs curr) (hx : ∀ x, sb = some x → x < curr)
+    (hall : ∀ d ∈ ds, d.emph = true → d.type ≠ [])
+    (hc : ds[curr]? = some closer) (hcl : closer.closes = true)
+    (hr : BRel sb ds bs curr closer ds' bs' from') :
+    ∀ k, from' ≤ k → BInv sb ds' bs' k ∧ ∀ x, sb = some x → x < k := by
+  intro k hk
+  rcases hr with ⟨ch, hh, hm, hbs, hfrom, hds⟩ | ⟨ch, o, hh, hm, ho, hbs, htake, hfrom⟩
+  · -- no opener found
+    refine ⟨?_, fun x hx' => by have := hx x hx'; omega⟩
+    have hsame : ∀ j, j < curr → ds'[j]? = ds[j]? := by
+      intro j hj
+      rcases hds with h | h
+      · rw [h, List.getElem?_eraseIdx_of_lt hj]
+      · rw [h]
+    rw [bottoms_sound sb ds bs curr closer ch hB hall hc hh hcl] at hm
+    have hnone := matchingOpener_none_spec curr ds sb closer hc hm
+    intro e he
+    rw [hbs] at he
+    rcases bottomsSet_mem _ _ _ _ he with rfl | he
+    · by_cases hcurr : curr > 0
+      · simp only [hcurr, if_true]
+        refine ⟨fun h => (by cases h), fun b hb => ?_⟩
+        simp only [Option.some.injEq] at hb
+        subst hb
+        refine ⟨by omega, fun x hx' => by have := hx x hx'; omega, fun j d h1 h2 hd he ho => ?_⟩
+        rw [hsame j (by omega)] at hd
+        rcases hnone j h1 (by omega) d hd with h | h
+        · exact absurd ⟨he, ho⟩ h
+        · rw [closedBy_key d closer ch hh hcl (hall d (List.mem_of_getElem? hd) he)] at h
+          simpa using h
+      · simp only [hcurr, if_false]
+        refine ⟨fun h => h, fun b hb => ?_⟩
+        have := hx b hb
+        omega
+    · refine ⟨(hB e he).1, fun b hb => ?_⟩
+      obtain ⟨h1, h2, h3⟩ := (hB e he).2 b hb
+      exact ⟨by omega, h2, fun j d hj1 hj2 hd => h3 j d hj1 hj2 (by rw [← hsame j (by omega)]; exact hd)⟩
+  · -- opener found at `o`
+    have hlo : loOf sb ≤ o := Nat.le_trans (hB.lo_le _) (matchingOpener_some_lb _ _ _ _ hm)
+    have hxo : ∀ x, sb = some x → x < o := by
+      intro x hx'; rw [hx'] at hlo; simp only [loOf] at hlo; omega
+    refine ⟨?_, fun x hx' => by have := hxo x hx'; omega⟩
+    have hsame : ∀ j, j < o → ds'[j]? = ds[j]? := by
+      intro j hj
+      have h1 : (ds'.take o)[j]? = ds'[j]? := by rw [List.getElem?_take, if_pos hj]
+      have h2 : (ds.take o)[j]? = ds[j]? := by rw [List.getElem?_take, if_pos hj]
+      rw [← h1, ← h2, htake]
+    intro e' he'
+    rw [hbs] at he'
+    obtain ⟨e, he, rfl⟩ := List.mem_map.1 he'
+    unfold remap
+    cases hv : e.2 with
+    | none =>
+      simp only
+      exact ⟨fun _ => (hB e he).1 hv, fun b hb => by rw [hv] at hb; cases hb⟩
+    | some b =>
+      obtain ⟨h1, h2, h3⟩ := (hB e he).2 b hv
+      simp only
+      by_cases hbo : b ≥ o
+      · rw [if_pos hbo]
+        by_cases ho0 : o > 0
+        · simp only [ho0, if_true]
+          refine ⟨fun h => (by cases h), fun b' hb' => ?_⟩
+          simp only [Option.some.injEq] at hb'
+          subst hb'
+          refine ⟨by omega, fun x hx' => by have := hxo x hx'; omega, fun j d hj1 hj2 hd => ?_⟩
+          rw [hsame j (by omega)] at hd
+          exact h3 j d hj1 (by omega) hd
+        · simp only [ho0, if_false]
+          refine ⟨fun h => h, fun b' hb' => ?_⟩
+          have := hxo b' hb'
+          omega
+      · rw [if_neg hbo]
+        refine ⟨fun h => (by rw [hv] at h; cases h), fun b' hb' => ?_⟩
+        rw [hv] at hb'
+        simp only [Option.some.injEq] at hb'
+        subst hb'
+        refine ⟨by omega, h2, fun j d hj1 hj2 hd => ?_⟩
+        rw [hsame j (by omega)] at hd
+        exact h3 j d hj1 hj2 hd
+
+/-! ### the loop without bottoms -/
+
+/-- body of the `process_emphasis` loop without any `bottoms` bookkeeping: the opener is always
+    searched down to the stack bottom -/
+def emphStepNB (s : Str) (stackBottom : Option Nat) (ds : List Delim) (ms : List CoreM) (curr : Nat) :
+    Res ((List Delim × List CoreM) × Option Nat) :=
+  match ds[curr]? with
+  | none => .err .index
+  | some closer =>
+    match closer.type.head? with
+    | none => .err .index
+    | some _ =>
+      match matchingOpener curr ds stackBottom with
+      | .err e => .err e
+      | .ok (some openPos) =>
+        (match ds[openPos]? with
+         | none => .err .index
+         | some opener =>
+           let n := if closer.number ≥ 2 && opener.number ≥ 2 then 2 else 1
+           let start := opener.stop - n
+           let stop := closer.start + n
+           match s[start]? with
+           | none => .err .index
+           | some dch =>
+             let m : CoreM := { start := start, stop := stop, kind := if n = 2 then .strong else .emphasis,
+                                ts := start + n, te := stop - n, dest := [], title := [], delimiter := dch }
+             let ds1 := ds.take (openPos + 1) ++ ds.drop curr
+             let (ds2, curr2) : List Delim × Nat :=
+               match delimRemove opener n false with
+               | some o' => (ds1.set openPos o', openPos + 1)
+               | none => (ds1.eraseIdx openPos, openPos)
+             let ds3 := match delimRemove closer n true with
+               | some c' => ds2.set curr2 c'
+               | none => ds2.eraseIdx curr2
+             .ok ((ds3, m :: ms), nextCloser curr2 ds3))
+      | .ok none =>
+        if !closer.opens then
+          let ds1 := ds.eraseIdx curr
+          .ok ((ds1, ms), nextCloser curr ds1)
+        else
+          .ok ((ds, ms), nextCloser (curr + 1) ds)
+
+/-- the `while curr_pos is not None` loop without bottoms -/
+def emphLoopNB (s : Str) (stackBottom : Option Nat) : Nat → List Delim → List CoreM → Option Nat →
+    Res (List Delim × List CoreM)
+  | 0, _, _, _ => .err .fuel
+  | _, ds, ms, none => .ok (ds, ms)
+  | fuel + 1, ds, ms, some curr =>
+    match emphStepNB s stackBottom ds ms curr with
+    | .err e => .err e
+    | .ok ((ds', ms'), c') => emphLoopNB s stackBottom fuel ds' ms' c'
+
+/-- `process_emphasis` without bottoms -/
+def processEmphasisNB (s : Str) (stackBottom : Option Nat) (ds : List Delim) (ms : List CoreM) :
+    Res (List Delim × List CoreM) :=
+  match emphLoopNB s stackBottom (2 * s.length + 2 * ds.length + 4) ds ms (nextCloser (stackBottom.getD 0) ds) with
+  | .err e => .err e
+  | .ok (ds', ms') => .ok (match stackBottom with | none => [] | some b => ds'.take b, ms')
+
+/-- an iteration of the real loop, forgetting `bottoms`, is an iteration of the loop without
+    bottoms, provided the recorded bound is sound for the current closer -/
+theorem emphStep_forget (s : Str) (sb : Option Nat) (st : EState) (curr : Nat)
+    (hs : ∀ closer ch, st.ds[curr]? = some closer → closer.type.head? = some ch →
+      matchingOpener curr st.ds (bottomsGet st.bottoms (ch, closer.opens, closer.runLength % 3) sb) =
+        matchingOpener curr st.ds sb) :
+    (match emphStep s sb st curr with
+     | .err e => .err e
+     | .ok (st', c') => .ok ((st'.ds, st'.ms), c')) = emphStepNB s sb st.ds st.ms curr := by
+  unfold emphStep emphStepNB
+  cases hc : st.ds[curr]? with
+  | none => rfl
+  | some closer =>
+    simp only
+    cases hh : closer.type.head? with
+    | none => rfl
+    | some ch =>
+      simp only
+      rw [hs closer ch hc hh]
+      cases matchingOpener curr st.ds sb with
+      | err e => rfl
+      | ok r =>
+        cases r with
+        | none =>
+          simp only
+          cases closer.opens <;> rfl
+        | some openPos =>
+          simp only
+          cases st.ds[openPos]? with
+          | none => rfl
+          | some opener =>
+            simp only
+            generalize s[opener.stop - (if (closer.number ≥ 2 && opener.number ≥ 2) = true then 2 else 1)]? = x
+            cases x <;> rfl
+
+/-- **`process_emphasis` does not depend on its bottoms.**  Loop level: under the chain invariant of
+    the delimiters and the invariant of `bottoms`, the real loop returns the delimiters and matches
+    of the loop without bottoms (for every amount of fuel). -/
+theorem emphLoop_eq_noBottoms (s : Str) (sb : Option Nat) (lo hi : Nat) (hhi : hi ≤ s.length) :
+    ∀ (fuel : Nat) (st : EState) (c : Option Nat), Chain lo hi st.ds → CurrOK st.ds c →
+      (∀ k, c = some k → BInv sb st.ds st.bottoms k ∧ ∀ x, sb = some x → x < k) →
+      (match emphLoop s sb fuel st c with
+       | .err e => .err e
+       | .ok st' => .ok (st'.ds, st'.ms)) = emphLoopNB s sb fuel st.ds st.ms c
+  | 0, _, _, _, _, _ => by simp [emphLoop, emphLoopNB]
+  | fuel + 1, st, none, _, _, _ => by simp [emphLoop, emphLoopNB]
+  | fuel + 1, st, some curr, hC, hc, hB => by
+    obtain ⟨closer, hcl, he, hcc⟩ := hc curr rfl
+    obtain ⟨hBI, hx⟩ := hB curr rfl
+    have hall : ∀ d ∈ st.ds, DelimOK d ∧ d.stop ≤ s.length := by
+      intro d hd
+      have := hC.mem d hd
+      exact ⟨this.1, by omega⟩
+    have hall' : ∀ d ∈ st.ds, d.emph = true → d.type ≠ [] := by
+      intro d hd _ h
+      have h1 := (hall d hd).1
+      have := h1.len; have := h1.pos; rw [h] at *; simp at *; omega
+    obtain ⟨ds', ms', bs', from', hstep, hrel, hbrel⟩ := emphStep_spec_b s sb st curr closer hall hcl he hcc
+    have hf := emphStep_forget s sb st curr (fun closer' ch hc' hh => by
+      rw [hcl] at hc'; cases hc'
+      exact bottoms_sound sb st.ds st.bottoms curr closer ch hBI hall' hcl hh hcc)
+    rw [hstep] at hf
+    simp only at hf
+    rw [emphLoop_succ, hstep]
+    simp only [emphLoopNB, ← hf]
+    have hnext := hBI.step hx hall' hcl hcc hbrel
+    exact emphLoop_eq_noBottoms s sb lo hi hhi fuel _ _ (hrel.chain hC) (CurrOK_nextCloser _ _)
+      (fun k hk => hnext k (nextCloser_spec _ _ _ hk).1)
+
+/-- **`process_emphasis` computes the same matches and the same remaining delimiters as
+    `process_emphasis` without bottoms**, whenever the delimiter list satisfies the chain invariant
+    and the delimiter at the stack bottom (the `[` / `![` of a link) is not an emphasis delimiter. -/
+theorem processEmphasis_eq_noBottoms (s : Str) (sb : Option Nat) (lo hi : Nat) (hhi : hi ≤ s.length)
+    (ds : List Delim) (ms : List CoreM) (hC : Chain lo hi ds)
+    (hsb : ∀ x d, sb = some x → ds[x]? = some d → d.emph = false) :
+    processEmphasis s sb ds ms = processEmphasisNB s sb ds ms := by
+  have h := emphLoop_eq_noBottoms s sb lo hi hhi (2 * s.length + 2 * ds.length + 4)
+    { ds := ds, ms := ms, bottoms := [] } (nextCloser (sb.getD 0) ds) hC (CurrOK_nextCloser _ _)
+    (fun k hk => ⟨fun e he => (by cases he), fun x hx => (by
+      obtain ⟨h1, d, h2, h3, _⟩ := nextCloser_spec _ _ _ hk
+      rw [hx] at h1
+      simp only [Option.getD_some] at h1
+      by_cases hxk : x = k
+      · subst hxk
+        have := hsb x d hx h2
+        rw [this] at h3; cases h3
+      · omega)⟩)
+  unfold processEmphasis processEmphasisNB
+  simp only at h
+  rw [← h]
+  cases emphLoop s sb (2 * s.length + 2 * ds.length + 4) { ds := ds, ms := ms, bottoms := [] }
+    (nextCloser (sb.getD 0) ds) <;> rfl
+
+/-! ### `find_core_tokens` without bottoms -/
+
+/-- `find_link_image` calling `process_emphasis` without bottoms -/
+def findLinkImageNB (s : Str) (offset : Nat) (ds : List Delim) (ms : List CoreM) (fn : Footnotes.Table) :
+    Res (Nat × List Delim × List CoreM) :=
+  match lastBracket ds 0 none with
+  | none => .ok (offset, ds, ms)
+  | some i =>
+    match ds[i]? with
+    | none => .err .index
+    | some d =>
+      if !d.active then .ok (offset, ds.eraseIdx i, ms) else
+      match matchLinkImage s offset d fn with
+      | none => .ok (offset, ds.eraseIdx i, ms)
+      | some m =>
+        match processEmphasisNB s (some i) ds ms with
+        | .err e => .err e
+        | .ok (ds1, ms1) =>
+          let ds2 := if d.type == ['['] then ds1.map (fun x => if x.type == ['['] then { x with active := false } else x) else ds1
+          .ok (m.stop - 1, ds2, m :: ms1)
+
+/-- `tailExpr` with `find_link_image` without bottoms -/
+def tailExprNB {α} (K : Nat → FState → Res α) (s : Str) (fn : Footnotes.Table) (i : Nat) (c : Char) (st2 : FState) : Res α :=
+  if !st2.escaped then
+    if c = '[' then
+      if !st2.inImage then K (i + 1) (pushDelim st2 (mkDelim i (i + 1) s))
+      else K (i + 1) { pushDelim st2 (mkDelim (i - 1) (i + 1) s) with inImage := false }
+    else if c = '!' then K (i + 1) { st2 with inImage := true }
+    else if c = ']' then
+      match findLinkImageNB s i st2.ds st2.ms fn with
+      | .err e => .err e
+      | .ok (i', ds', ms') => K (i' + 1) { st2 with ds := ds', ms := ms', code := codeSearch s i' }
+    else if st2.inImage then K (i + 1) { st2 with inImage := false }
+    else K (i + 1) st2
+  else K (i + 1) { st2 with escaped := false, inImage := false }
+
+def restExprNB {α} (K : Nat → FState → Res α) (s : Str) (fn : Footnotes.Table) (i : Nat) (c : Char) (st : FState) : Res α :=
+  if c = '\\' && !st.escaped then K (i + 1) { st with escaped := true }
+  else tailExprNB K s fn i c (st2Of i c (st1Of s i c st))
+
+/-- the character loop of `find_core_tokens`, with `find_link_image` without bottoms -/
+def coreLoopNB (s : Str) (fn : Footnotes.Table) : Nat → Nat → FState → Res (Nat × FState)
+  | 0, _, _ => .err .fuel
+  | fuel + 1, i, st =>
+    match s[i]? with
+    | none => .ok (i, st)
+    | some c =>
+      if (match st.code with | some cm => i == cm.start | none => false) then
+        match st.code with
+        | none => .err .type
+        | some cm => codeExpr (coreLoopNB s fn fuel) s i st cm
+      else restExprNB (coreLoopNB s fn fuel) s fn i c st
+
+/-- `find_core_tokens` with every `process_emphasis` replaced by the loop without bottoms -/
+def findCoreTokensNB (s : Str) (fn : Footnotes.Table) : Res (List CoreM × List CodeM) :=
+  match coreLoopNB s fn (s.length + 2) 0 { code := codeSearch s 0 } with
+  | .err e => .err e
+  | .ok (i, st) =>
+    let st1 := if st.inRun.isSome then pushDelim st (mkDelim st.start (if !st.escaped then i else i - 1) s) else st
+    match processEmphasisNB s none st1.ds st1.ms with
+    | .err e => .err e
+    | .ok (_, ms) => .ok (ms.reverse, st1.codes.reverse)
+
+theorem lastBracket_type : ∀ (l : List Delim) (i : Nat) (acc : Option Nat) (k : Nat),
+    lastBracket l i acc = some k → acc = some k ∨
+      ∃ d, i ≤ k ∧ l[k - i]? = some d ∧ (d.type == ['['] || d.type == ['!', '[']) = true
+  | [], _, _, _, h => by left; simpa [lastBracket] using h
+  | d :: rest, i, acc, k, h => by
+    simp only [lastBracket] at h
+    rcases lastBracket_type rest (i + 1) _ k h with h1 | ⟨d', h1, h2, h3⟩
+    · split at h1
+      · rename_i hc
+        cases h1
+        right; exact ⟨d, Nat.le_refl _, by simp, hc⟩
+      · left; exact h1
+    · right
+      refine ⟨d', by omega, ?_, h3⟩
+      have : k - i = (k - (i + 1)) + 1 := by omega
+      rw [this, List.getElem?_cons_succ]; exact h2
+
+theorem findLinkImage_eq_noBottoms (s : Str) (offset : Nat) (ds : List Delim) (ms : List CoreM) (fn : Footnotes.Table)
+    (hi : Nat) (hG : GInv s hi ds ms) (hhi : hi ≤ s.length) :
+    findLinkImage s offset ds ms fn = findLinkImageNB s offset ds ms fn := by
+  unfold findLinkImage findLinkImageNB
+  cases hl : lastBracket ds 0 none with
+  | none => rfl
+  | some i =>
+    simp only
+    cases hd : ds[i]? with
+    | none => rfl
+    | some d =>
+      simp only
+      have hpe : processEmphasis s (some i) ds ms = processEmphasisNB s (some i) ds ms := by
+        apply processEmphasis_eq_noBottoms s (some i) 0 hi hhi ds ms hG.cinv.dinv.chain
+        intro x d' hx hd'
+        cases hx
+        rw [hd] at hd'; cases hd'
+        rcases lastBracket_type ds 0 none i hl with h | ⟨d', _, h2, h3⟩
+        · cases h
+        · simp only [Nat.sub_zero] at h2
+          rw [hd] at h2; cases h2
+          cases he : d.emph with
+          | false => rfl
+          | true =>
+            obtain ⟨ch, hty, hrun, _⟩ := hG.cinv.eok d (List.mem_of_getElem? hd) he
+            have hpos := (hG.cinv.dinv.chain.mem d (List.mem_of_getElem? hd)).1.pos
+            have hhead : d.type.head? = some ch := by
+              rw [hty, List.head?_replicate, if_neg (by omega)]
+            simp only [Bool.or_eq_true, beq_iff_eq] at h3
+            rcases h3 with h3 | h3 <;> rw [h3] at hhead <;> simp at hhead <;>
+              rcases hrun with hrun | hrun <;> rw [hrun] at hhead <;> cases hhead
+      rw [hpe]
+      rfl
 
 end Mistletoe.Core
